@@ -32,6 +32,8 @@ THEOREMS = {n: "Props.C13" for n in [
     "C13_l1d_restored_losses", "C13_l1d_restored_example"]}
 
 SIG_F7 = "C13:F7 Learner2D unusable on numpy>=2.x/scipy>=1.15"
+SIG_XSCALE = ("C13:Learner1D:file/copy_from restore of a learner lacking an evaluated end point takes the data extent as "
+              "x-scale (batch path of tell_many): losses and later suggestions differ from the original")
 SIG_CYCLE_TENTATIVE = ("C13:BalancingLearner:pickle strategy='cycle' after ask(tell_pending=False) resumes at the wrong child "
                        "(_cycle_position not rolled back by the tentative ask)")
 SIG_CYCLE = "C13:BalancingLearner:pickle strategy='cycle' restarts at the first child (position in the cycle is not part of the pickled state)"
@@ -133,7 +135,8 @@ def gen_cfg(rng, kind, quick):
                 "loss": rng.choice(["default", "default", "uniform", "triangle", "curvature", "resolution"]),
                 "factor": rng.choice([1, 1, 2]), "n": rng.randint(3, 30 if quick else 60)}
     if kind in ("lnd2", "lnd3", "l2d"):
-        return {"kind": kind, "f": rng.choice(list(GN)), "a": a, "loss": rng.choice(["default", "uniform"]),
+        hole = {"corner_hole": rng.random() < 0.4} if kind == "l2d" else {}
+        return {**hole, "kind": kind, "f": rng.choice(list(GN)), "a": a, "loss": rng.choice(["default", "uniform"]),
                 "n": rng.randint(6, 22 if quick else 45) if kind != "lnd3" else rng.randint(10, 20 if quick else 35)}
     if kind == "avg":
         return {"kind": kind, "a": a, "atol": rng.choice([0.01, 0.1]), "rtol": rng.choice([0.01, 1.0]),
@@ -248,17 +251,57 @@ def ask_tentative(l, cfg, rng, k):
             raise
 
 
+def unsolicited_point(l, cfg, rng):
+    """An in-domain point the learner never handed out (None where the learner type accepts none:
+    IntegratorLearner.tell raises for an abscissa it did not choose itself)."""
+    kind = cfg["kind"]
+    if kind == "int":
+        return None
+    if cfg.get("wrap") == "balancing":
+        i = rng.randrange(len(l.learners))
+        p = _unsolicited_base(l.learners[i], kind, rng)
+        return None if p is None else (i, p)
+    return _unsolicited_base(base_of(l, cfg), kind, rng)
+
+
+def _unsolicited_base(k, kind, rng):
+    if kind == "l1d":
+        lo, hi = k.bounds
+        x = lo + (hi - lo) * (rng.randint(1, 63) / 64.0 if rng.random() < 0.5 else rng.uniform(0.01, 0.99))
+        return None if x in k.data or x in k.pending_points else x
+    if kind in ("lnd2", "lnd3", "l2d"):
+        d = 3 if kind == "lnd3" else 2
+        p = tuple(round(rng.uniform(-0.9, 0.9), 3) for _ in range(d))
+        return None if p in k.data or p in k.pending_points else p
+    if kind == "avg":
+        sd = k.n_requested + rng.randint(1, 4)          # leaves a gap in the seeds
+        return None if sd in k.data or sd in k.pending_points else sd
+    if kind == "avg1d":
+        x = round(rng.uniform(-0.95, 0.95), 3)
+        return None if x in k.data else (0, x)
+    if kind == "seq":
+        free = [i for i in range(len(k.sequence)) if i not in k.data and i not in k.pending_points]
+        if not free:
+            return None
+        i = rng.choice(free)                             # not the next index in line: leaves a hole
+        return (i, k.sequence[i])
+    return None
+
+
 def drive(l, cfg, rng, info=None):
-    """Ask-driven history with out-of-order delivery that ends with nothing pending: committing asks of 1..5
-    points, non-committing asks ask(n, tell_pending=False) in between, and a closing phase: one more committing
-    BATCH ask (n > 1) whose points are all delivered, then possibly one or two non-committing asks as the very
-    last operations before the snapshot.  Returns the list of (point, value) in delivery order."""
+    """A history that ends with nothing pending: committing asks of 1..5 points with partial, out-of-order
+    delivery; non-committing asks ask(n, tell_pending=False) in between; remove_unfinished() after a partial
+    delivery (asked points stay unevaluated: holes in a SequenceLearner's indices, missing end points / corners);
+    unsolicited tells of in-domain points that were never asked; a closing phase: one more committing BATCH ask
+    (n > 1), delivered completely or partly + remove_unfinished(), then possibly one or two non-committing asks
+    as the very last operations before the snapshot.  Returns the list of (point, value) in delivery order."""
     info = info if info is not None else {}
-    info.update({"tentative": 0, "trailing_tentative": 0, "last_commit_n": 0})
+    info.update({"tentative": 0, "trailing_tentative": 0, "last_commit_n": 0, "discards": 0, "unsolicited": 0})
     f = l.function
     wait, hist = [], []
     target = cfg["n"]
     stuck = 0
+    can_discard = cfg["kind"] != "int"      # IntegratorLearner.remove_unfinished is a no-op: points would stay in flight
 
     def deliver(k):
         for _ in range(k):
@@ -266,6 +309,20 @@ def drive(l, cfg, rng, info=None):
             y = f(p)
             l.tell(p, y)
             hist.append((p, y))
+
+    def discard():
+        l.remove_unfinished()
+        info["discards"] += bool(wait)
+        wait.clear()
+
+    def finish_round():
+        """all outstanding results arrive, or only some of them and the rest is discarded"""
+        if can_discard and wait and rng.random() < 0.3:
+            rng.shuffle(wait)
+            deliver(rng.randint(0, len(wait) - 1))
+            discard()
+        else:
+            deliver(len(wait))
 
     def commit(k):
         try:
@@ -278,10 +335,42 @@ def drive(l, cfg, rng, info=None):
             info["last_commit_n"] = len(pts)
         return list(pts)
 
-    while progress(l) < target and stuck < 3:
+    if cfg.get("corner_hole"):
+        # Learner2D: the snapshot is taken while a corner of the domain is unevaluated and sits in the stack
+        # BEHIND interior candidates (remove_unfinished puts a missing corner back at the end of the stack)
+        target = 0
+        pts = commit(rng.choice([5, 6])) or []
+        base = (lambda q: q[1]) if cfg.get("wrap") == "balancing" else (lambda q: q)
+        corners = [q for q in pts if all(abs(abs(c) - 1.0) < 1e-12 for c in base(q))]
+        held = rng.choice(corners) if corners else None
+        wait += [q for q in pts if q is not held]
+        rng.shuffle(wait)
+        deliver(len(wait))
+        wait += commit(rng.choice([1, 2])) or []
+        deliver(len(wait))
+        if held is not None:
+            wait.append(held)
+            discard()
+        for _ in range(rng.choice([0, 0, 1, 2])):
+            q = unsolicited_point(l, cfg, rng)
+            if q is not None:
+                y = f(q)
+                l.tell(q, y)
+                hist.append((q, y))
+                info["unsolicited"] += 1
+    rounds = 0
+    while progress(l) < target and stuck < 3 and rounds < 40 * max(1, target):
+        rounds += 1
         if rng.random() < 0.2 and progress(l) > 0:
             ask_tentative(l, cfg, rng, rng.choice([1, 2, 3]))
             info["tentative"] += 1
+        if rng.random() < 0.12:
+            p = unsolicited_point(l, cfg, rng)
+            if p is not None:
+                y = f(p)
+                l.tell(p, y)
+                hist.append((p, y))
+                info["unsolicited"] += 1
         pts = commit(rng.choice([1, 1, 2, 3, 5]))
         if pts is None:
             break
@@ -292,23 +381,23 @@ def drive(l, cfg, rng, info=None):
             continue
         rng.shuffle(wait)
         deliver(rng.randint(0 if len(wait) > 1 else 1, len(wait)))
-    deliver(len(wait))
+        if can_discard and wait and rng.random() < 0.12:
+            discard()
+    finish_round()
     # closing phase
-    if rng.random() < 0.7:
+    if not cfg.get("corner_hole") and rng.random() < 0.7:
         pts = commit(rng.choice([2, 3, 4, 5]))
         if pts:
             wait += pts
             rng.shuffle(wait)
-            deliver(len(wait))
+            finish_round()
     if cfg["kind"] == "avg1d" and rng.random() < 0.5:
         # two unsolicited samples at a fresh location: the snapshot is taken while a location has exactly two
         # samples (with the default min_samples = 50 an ask-driven run is almost never in that state)
         x = round(rng.uniform(-0.95, 0.95), 3)
+        child = rng.randrange(len(l.learners)) if cfg.get("wrap") == "balancing" else None
         for sd in (0, 1):
-            p = (sd, x)
-            if cfg.get("wrap") == "balancing":
-                p = (rng.randrange(len(l.learners)) if sd == 0 else p_child, p)
-                p_child = p[0]
+            p = (sd, x) if child is None else (child, (sd, x))
             y = f(p)
             l.tell(p, y)
             hist.append((p, y))
@@ -514,10 +603,16 @@ def check_case(chk, cfg, seed, stats, workdir, tag):
         return False
     name = name_of(cfg)
     replay = {"cfg": cfg, "seed": seed}
+    missing_end = cfg["kind"] == "l1d" and any(
+        b not in k.data for k in (l.learners if cfg.get("wrap") == "balancing" else [base_of(l, cfg)]) for b in k.bounds)
+    stats["l1d_histories_lacking_an_end_point"] = stats.get("l1d_histories_lacking_an_end_point", 0) + missing_end
     if cfg["kind"] == "avg1d":
         kk = l.learners if cfg.get("wrap") == "balancing" else [base_of(l, cfg)]
         stats["avg1d_histories_with_a_two_sample_location"] = stats.get("avg1d_histories_with_a_two_sample_location", 0) + \
             any(len(sm) == 2 for k in kk for sm in k._data_samples.values())
+    stats["l2d_histories_with_corner_hole"] = stats.get("l2d_histories_with_corner_hole", 0) + bool(cfg.get("corner_hole"))
+    stats["histories_with_discard"] = stats.get("histories_with_discard", 0) + (info["discards"] > 0)
+    stats["histories_with_unsolicited_tell"] = stats.get("histories_with_unsolicited_tell", 0) + (info["unsolicited"] > 0)
     stats["tentative_asks"] = stats.get("tentative_asks", 0) + info["tentative"]
     stats["histories_ending_with_tentative_ask"] = stats.get("histories_ending_with_tentative_ask", 0) + (info["trailing_tentative"] > 0)
     stats["histories_last_commit_batch"] = stats.get("histories_last_commit_batch", 0) + (info["last_commit_n"] > 1)
@@ -560,6 +655,10 @@ def check_case(chk, cfg, seed, stats, workdir, tag):
             loss1 = float(c.loss())
             ok = same_val(loss0, loss1) if want_loss == "exact" else close_val(loss0, loss1, LOSS_RTOL)
             stats["loss_compared"] += 1
+            if not ok and missing_end and mech not in ("pickle", "cloudpickle"):
+                chk.fail(SIG_XSCALE, f"{name} {cfg} after {len(hist)} results: {mech}: loss() {loss1!r} vs original {loss0!r}",
+                         dict(replay, mech=mech))
+                continue
             if not ok:
                 chk.fail(f"C13:{name}:{mech} loss differs", f"{name} {cfg} after {len(hist)} results: {mech}: loss() {loss1!r} vs original {loss0!r}",
                          dict(replay, mech=mech))
@@ -637,6 +736,10 @@ def check_case(chk, cfg, seed, stats, workdir, tag):
                 chk.fail(SIG_CYCLE, f"{name} {cfg} after {len(hist)} results: {mech}: the original continues with children "
                                     f"{kids_o}, the restored copy with {kids_c}", dict(replay, mech=mech))
                 continue
+        if not ok and missing_end and mech not in ("pickle", "cloudpickle"):
+            chk.fail(SIG_XSCALE, f"{name} {cfg} after {len(hist)} results: {mech}: ask(10) = {_short(a1)} vs original {_short(a0)}",
+                     dict(replay, mech=mech))
+            continue
         if not ok:
             chk.fail(f"C13:{name}:{mech} next suggestions differ",
                      f"{name} {cfg} after {len(hist)} results: {mech}: ask(10) = {_short(a1)} vs original {_short(a0)}", dict(replay, mech=mech))
@@ -870,7 +973,7 @@ def run(chk: Check) -> int:
         chk.note_case((cfg, seed), usable and cfg["n"] >= 5)
         if usable and i % 37 == 0:
             chk.sample({"learner": nm, "cfg": {k: v for k, v in cfg.items() if k != "kind"}, "mechanisms": MECHS})
-        if sum(1 for f in chk.failures if f["signature"] not in (SIG_F7, SIG_CYCLE, SIG_CYCLE_TENTATIVE)) > 40:
+        if sum(1 for f in chk.failures if f["signature"] not in (SIG_F7, SIG_CYCLE, SIG_CYCLE_TENTATIVE, SIG_XSCALE)) > 40:
             break
     # continued run of pickled Learner1D copies (and wrappers around Learner1D), default factor 2
     for wrap, count in ((None, 40 if chk.quick else 400), ("balancing", 10 if chk.quick else 80), ("datasaver", 10 if chk.quick else 80)):
